@@ -223,12 +223,52 @@ def check_spinlocks(ctx, unit):
             bad.append("hand-over store targets %s" % (w.obj,))
         v = w.value.strip() if w.value is not None else None
         okv = False
-        if v is not None and v.kind == "BinaryOperator" and v.op == "+":
-            a, b = [resolve_local(ul, x) for x in v.children]
-            for x, y in ((a, b), (b, a)):
-                ld = [l for l in acc_u if l.op == "load" and l.node.id == x.id and l.obj == w.obj]
-                if ld and y.cv() == 1:
-                    okv = True
+        if v is not None:
+            # the stored value, as a polynomial over the atomic loads of the function, on every path to the store:
+            # load(serving) + 1 whether it is spelled `load + 1`, `++local`, `local += 1` or through several locals
+            from .poly import Poly, to_poly
+            loads = {l.node.id: l for l in acc_u if l.op == "load"}
+            seen_vals = set()
+
+            def leaf_with(env):
+                def leaf(x):
+                    x = x.strip()
+                    if x.id in loads:
+                        return Poly.sym("load(%s)" % (loads[x.id].obj,))
+                    if x.kind == "DeclRefExpr" and x.get("local"):
+                        return dict(env).get(x.d["d"], Poly.sym("v#%d" % x.d["d"]))
+                    return Poly.sym("e:" + canon(x))
+                return leaf
+
+            def transfer(n, env):
+                if n.id == w.node.id:
+                    seen_vals.add(to_poly(v, leaf_with(env)))
+                    return [env]
+                e = dict(env)
+                if n.kind == "DeclStmt":
+                    for d in n.get("decls", []):
+                        if "init" in d:
+                            pv = to_poly(ul.node(d["init"]), leaf_with(env))
+                            if pv is not None:
+                                e[d["d"]] = pv
+                elif n.kind == "UnaryOperator" and n.op in ("++", "--"):
+                    t = n.children[0].strip()
+                    if t.kind == "DeclRefExpr" and t.get("local"):
+                        cur = e.get(t.d["d"], Poly.sym("v#%d" % t.d["d"]))
+                        e[t.d["d"]] = cur + Poly.const(1 if n.op == "++" else -1)
+                elif n.kind in ("BinaryOperator", "CompoundAssignOperator") and n.op in ("=", "+=", "-="):
+                    t = n.children[0].strip()
+                    if t.kind == "DeclRefExpr" and t.get("local"):
+                        rv = to_poly(n.children[1], leaf_with(env))
+                        cur = e.get(t.d["d"], Poly.sym("v#%d" % t.d["d"]))
+                        if rv is None:
+                            e.pop(t.d["d"], None)
+                        else:
+                            e[t.d["d"]] = rv if n.op == "=" else (cur + rv if n.op == "+=" else cur - rv)
+                return [tuple(sorted(e.items(), key=lambda kv: kv[0]))]
+            flow.run(ul, [()], transfer, None)
+            want = Poly.sym("load(%s)" % (w.obj,)) + Poly.const(1)
+            okv = bool(seen_vals) and all(x is not None and x == want for x in seen_vals)
         if not okv:
             bad.append("stored value is not load(serving)+1: %s" % (canon(v) if v is not None else None))
     ctx.inst("A.ticket.release", "frg::ticket_spinlock::unlock", not bad, ul.loc,
